@@ -967,7 +967,8 @@ def check(c):
                            "arith_triples_machine_vs_ieee_model": an,
                            "line_comparisons_with_fmt3_model": totals.get("fmt3_line_comparisons", 0),
                            "numbers_in_those_lines": totals.get("fmt3_numbers_in_lines", 0),
-                           "whole_millisecond_fields_printed_exactly": totals.get("exact_millisecond_fields_checked", 0)},
+                           "whole_millisecond_fields_printed_exactly": totals.get("exact_millisecond_fields_checked", 0),
+                           "begin_field_pairs_checked_non_decreasing": totals.get("monotone_begin_pairs_checked", 0)},
                   "line_content": {k: v for k, v in totals.items() if k.startswith("lines_")},
                   "start_offsets": STARTS, "frame_rate_overrides": FRATES,
                   "length_aimed_scenarios": n_len,
